@@ -13,6 +13,25 @@ fn run_all(eg: &mut EGraph, cmds: &[String]) -> Vec<String> {
 
 // ------------------------------------------------------------------------------------------------ C08
 
+/// what the name-indexed read API shows: every registered table name with its row count, the number of
+/// rows the per-name iterators deliver, and for a fixed list of probe names whether the name is missing
+fn api_obs(eg: &EGraph, probes: &[String]) -> Vec<String> {
+    use egglog::Read;
+    let mut out: Vec<String> = eg.read(|st| st.table_sizes().into_iter().map(|(n, k)| format!("size {n} = {k}")).collect());
+    out.sort();
+    let names: Vec<String> = eg.read(|st| st.tables().map(|s| s.to_string()).collect());
+    let mut names: Vec<String> = names.into_iter().chain(probes.iter().cloned()).collect(); names.sort(); names.dedup();
+    for n in names {
+        let mut k = 0usize;
+        let a = match eg.constructor_enodes(&n, |_| k += 1) { Ok(()) => format!("enodes {k}"), Err(e) => format!("enodes-err {}", engine::error_class(&e)) };
+        let mut j = 0usize;
+        let b = match eg.function_entries(&n, |_| j += 1) { Ok(()) => format!("entries {j}"), Err(e) => format!("entries-err {}", engine::error_class(&e)) };
+        let sz = eg.read(|st| st.table_size(&n));
+        out.push(format!("name {n}: {a}, {b}, table_size {sz:?}"));
+    }
+    out
+}
+
 /// declarations and other state-changing commands that only make sense inside the bracket
 fn q_extras(rng: &mut Rng, k: usize) -> Vec<String> {
     let mut v = vec![];
@@ -30,8 +49,8 @@ fn q_extras(rng: &mut Rng, k: usize) -> Vec<String> {
 
 /// R re-declares the names Q may have declared (they must be free again) and observes everything
 fn r_probe(k: usize) -> Vec<String> {
-    vec![format!("(constructor Z{k} (E) E)"), format!("(function q{k} (E) i64 :merge (max old new))"), format!("(ruleset rq{k})"), format!("(relation S{k} (E))"), format!("(sort T{k})"),
-         format!("(let $g{k} (B))"), format!("(datatype D{k} (Leaf{k}) (Node{k} D{k} D{k}))"), "(print-size)".to_string(), "(run r0 1)".to_string(), "(run r1 1)".to_string(), "(print-size)".to_string()]
+    vec![format!("(relation Pad{k} (E E))"), format!("(constructor Z{k} (E E) E)"), format!("(function q{k} (E) i64 :merge (max old new))"), format!("(ruleset rq{k})"), format!("(relation S{k} (E))"), format!("(sort T{k})"),
+         format!("(let $g{k} (B))"), format!("(Z{k} (A) (B))"), format!("(Z{k} (B) (B))"), format!("(set (q{k} (A)) 5)"), format!("(set (q{k} (B)) 6)"), format!("(S{k} (B))"), format!("(Pad{k} (A) (B))"), format!("(datatype D{k} (Leaf{k}) (Node{k} D{k} D{k}))"), "(print-size)".to_string(), "(run r0 1)".to_string(), "(run r1 1)".to_string(), "(print-size)".to_string()]
 }
 
 pub fn run_c08(ctx: &Ctx) -> Report {
@@ -86,8 +105,13 @@ pub fn run_c08(ctx: &Ctx) -> Report {
         if ra != rb { let k = ra.iter().zip(&rb).position(|(x, y)| x != y).unwrap_or(0);
             rep.violate("property", "c08-pushpop-outputs", format!("continuation command `{}` answers `{}` after push;Q;pop but `{}` without it", r[k], ra[k], rb[k]), prog()); continue; }
         if engine::canon(&a) != engine::canon(&b) { rep.violate("property", "c08-pushpop-database", "final databases differ".into(), prog()); }
-        // name-indexed API access to names declared in Q
-        for name in [format!("Z{}", i % 3), format!("q{}", i % 3)] { let _ = name; }
+        // name-indexed API access: names declared in Q and dropped by the pop are missing unless R declared them again,
+        // and what R declared is what the names show
+        let k = i % 3;
+        let probes: Vec<String> = vec![format!("Z{k}"), format!("q{k}"), format!("S{k}"), format!("Pad{k}"), format!("Leaf{k}"), format!("Node{k}"), "nosuch".into()];
+        let (oa, ob) = (api_obs(&a, &probes), api_obs(&b, &probes));
+        if oa != ob { let d = oa.iter().zip(&ob).find(|(x, y)| x != y).map(|(x, y)| format!("`{x}` vs `{y}`")).unwrap_or_else(|| format!("{} vs {} entries", oa.len(), ob.len()));
+            rep.violate("property", "c08-name-indexed-api", format!("the name-indexed read API differs after push;Q;pop;R from P;R: {d}"), prog()); }
     }
     // (c) clone isolation
     for _ in 0..ctx.n(100, 2000) {
@@ -160,7 +184,46 @@ pub fn run_c03(ctx: &Ctx) -> Report {
                 rep.violate("property", "c03-model-differs", format!("after `{}` the engine differs from the naive Lean semantics", s1[k].text), prog()); break; } }
         }
     }
+    churn_stream(&mut rep, &mut rng, ctx.n(25, 400));
     rep
+}
+
+/// large-table stream for C03: tables that are compacted (more than max(16, n/2) superseded rows) while a
+/// prefix of old rows keeps its position, rules run for the first time long after the writes or re-run
+/// after them; constructor tables churned by unions.  semi-naive vs naive after every command.
+fn churn_stream(rep: &mut Report, rng: &mut Rng, n: usize) {
+    for _ in 0..n {
+        rep.evaluations += 1;
+        let merge = ["min", "max"][rng.below(2)];
+        let pre = 1 + rng.below(8) as i64; let churn = 10 + rng.below(30) as i64; let rounds = 2 + rng.below(4) as i64;
+        let rule_first = rng.chance(1, 2);
+        let hdr = format!("(function f (i64) i64 :merge ({merge} old new))\n(relation seen (i64 i64))\n(datatype T (Leaf i64) (Node T))\n(relation seenT (T))\n(ruleset copy)\n");
+        let rules = "(rule ((= v (f x))) ((seen x v)) :ruleset copy)\n(rule ((= t (Node (Leaf x)))) ((seenT t)) :ruleset copy)".to_string();
+        let mut cmds: Vec<String> = vec![];
+        if rule_first { cmds.push(rules.clone()); cmds.push("(set (f 5000) 7)".into()); cmds.push("(run copy 1)".into()); }
+        cmds.push((0..pre).map(|k| format!("(set (f {k}) 100) (Node (Leaf {k}))")).collect::<Vec<_>>().join(" "));
+        for r in 0..rounds {
+            let val = if merge == "min" { 100 - r } else { 100 + r };
+            cmds.push((0..churn).map(|k| format!("(set (f {}) {val})", 1000 + k)).collect::<Vec<_>>().join(" "));
+            if rng.chance(1, 3) { cmds.push(format!("(union (Leaf {}) (Leaf {}))", rng.below(pre as usize), 9000 + r)); }
+            if rule_first && rng.chance(1, 3) { cmds.push("(run copy 1)".into()); }
+        }
+        if !rule_first { cmds.push(rules.clone()); }
+        cmds.push("(run copy 1)".into()); cmds.push("(run copy 1)".into());
+        let mut semi = EGraph::default(); let mut naive = EGraph::default(); naive.seminaive = false;
+        engine::run(&mut semi, &hdr); engine::run(&mut naive, &hdr);
+        rep.note_nontrivial(&cmds);
+        for (k, c) in cmds.iter().enumerate() {
+            let (a, b) = (engine::run(&mut semi, c), engine::run(&mut naive, c));
+            let (da, db) = (engine::canon(&semi), engine::canon(&naive));
+            if a.class() != b.class() || da != db {
+                let miss: Vec<&String> = db.iter().filter(|l| !da.contains(l)).take(4).collect();
+                let extra: Vec<&String> = da.iter().filter(|l| !db.contains(l)).take(4).collect();
+                rep.violate("property", "c03-seminaive-differs", format!("[large tables] after command #{k} semi-naive and naive evaluation differ: {} rows only under naive e.g. {miss:?}, only under semi-naive {extra:?}", db.iter().filter(|l| !da.contains(l)).count()), json!({"program": hdr.clone() + &cmds[..=k].join("\n")}));
+                break;
+            }
+        }
+    }
 }
 
 // ------------------------------------------------------------------------------------------------ C06
